@@ -209,6 +209,7 @@ func vfNewAddedFace(i int) vfAddedFace {
 }
 
 func VfH_C14_addface() {
+	VfHook_FontMap_buildCandidates = nil // the real candidate construction (a replay of H-C14-resolve in the same process may have installed its stub)
 	VfHook_newLangsetFromCoverage = func(RuneSet) LangSet { return LangSet{} }
 	queries := [...]Query{{Families: []string{"a"}}, {Families: []string{"b", "a"}}, {Families: []string{"b"}}, {Families: []string{"a", "b"}}}
 	nqueries := 2
